@@ -51,8 +51,9 @@ class SymMath(types.ModuleType):
         x = _conc(x)
         if not _any_sym(x):
             return _math.sqrt(x)
-        if engine().decide(x.t < 0):
-            raise ValueError('math domain error')
+        if not core.syntactically_nonneg(z3.simplify(x.t)) and not core.syntactically_nonneg(x.t):
+            if engine().decide(x.t < 0):
+                raise ValueError('math domain error')
         return engine().summary('sqrt', [x.t])
 
     def _sin(self, x):
